@@ -113,7 +113,7 @@ P("C02", module="AJ.Props.C02All", extra=[("AJ.Props.C02", ["C02"]), ("AJ.Props.
   ([S.JsonSerSuite(cfg=CFG_ALL, n=20000), S.JsonSerSuite(cfg={"arduino": 1}, n=20000)] if tier == "thorough" else [S.JsonSerSuite(cfg=CFG_ALL, n=600), S.JsonSerSuite(cfg={"arduino": 1}, n=400)]),
   partial=["NaN/Infinity texts under the non-standard options are outside the grammar by design"])
 
-P("C03", module="AJ.Props.C03All", extra=[("AJ.Props.C03", ["C03"]), ("AJ.Props.C03Doc", ["C03"])], level_text="C03.deserialized_document_wf(_any_oracle) / _traversable / _clearable / _reusable: for EVERY byte string, limit, configuration, starting document and allocator-failure schedule, the slot-level model of deserializeJson leaves a well-formed document (chains acyclic, slots used once and live, reference counts sufficient) that can be traversed, cleared and deserialized into again, whatever code is returned. Theorems for every configuration, limit, filter and byte string, JSON (filtered and unfiltered) and MessagePack: the deserializer never takes more bytes "
+P("C03", module="AJ.Props.C03All", extra=[("AJ.Props.C03", ["C03"]), ("AJ.Props.C03Doc", ["C03"]), ("AJ.Props.C03MpDoc", ["C03"])], level_text="C03.deserialized_document_wf(_any_oracle) / _traversable / _clearable / _reusable: for EVERY byte string, limit, configuration, starting document and allocator-failure schedule, the slot-level models of deserializeJson AND deserializeMsgPack (mp_* twins) leave a well-formed document (chains acyclic, slots used once and live, reference counts sufficient) that can be traversed, cleared and deserialized into again by either format, whatever code is returned. Theorems for every configuration, limit, filter and byte string, JSON (filtered and unfiltered) and MessagePack: the deserializer never takes more bytes "
   "than the input has; it terminates (the model's fuel 2*len+4 is never exhausted) and never reaches a fault state (powers-of-ten table index in range for every literal); the code is "
   "one of the six documented ones. The model is compared with the real library on bounded-exhaustive token sequences, mutated and random inputs through nine reader kinds, inputs in "
   "exactly-sized heap blocks under ASan+UBSan; source independence is checked on the implementation directly.",
@@ -144,13 +144,14 @@ P("C08", level_text="Theorem: for every raw-free document within the 64-bit/32-b
   suites=lambda tier: [S.MpSerSuite(cfg=DEF), S.SerBufSweep(cfg=DEF, fmt="mp", n=40 if tier == "quick" else 1500), S.MpSerSuite(cfg=G["len1"], n=300 if tier == "quick" else 20000)] +
   ([S.MpSerSuite(cfg=G["len4"], n=2000)] if tier == "thorough" else []))
 
-P("C09", module="AJ.Props.C09All", extra=[("AJ.Props.C09", ["C09"]), ("AJ.Props.C09Prefix", ["C09"])],
+P("C09", module="AJ.Props.C09All", extra=[("AJ.Props.C09", ["C09"]), ("AJ.Props.C09Prefix", ["C09"]), ("AJ.Props.C09Doc", ["C09"])],
   level_text="Theorems: every serialized document is accepted and decoded to the value it encodes with exact consumption (any trailing bytes); "
   "C09.enc_accepts: every encoding of the syntactic predicate MD.Enc (any legal width at every place: fix/8/16/32 lengths and counts, bin, ext, fixext, nested containers, within the limits) is "
   "accepted, for every filter; prefix_classification / enc_prefix_classification / run_prefix_by_consumed: every proper prefix gives IncompleteInput (EmptyInput for the empty input) with the "
   "whole prefix consumed, for every filter, and a prefix that contains the first object of a sequence returns that object; reserved_code_at / non_string_key_at (and the any-width forms): 0xC1 "
   "where a value is expected and a non-string byte where a key is expected give InvalidInput at that byte, at any depth; run_prefix_dichotomy: the result of a run depends only on the bytes "
-  "it consumed. The model agrees with deserializeMsgPack on values encoded by an independent encoder with arbitrary legal widths, on all their proper prefixes and on corruptions; the "
+  "it consumed. SLOT LEVEL (C09Doc): slot_level_refines / roundtrip_slot_level / prefix_classification_slot_level - the slot-level model of deserializeMsgPack (real document, string buffer, allocator) "
+  "returns the same code, bytes consumed and abstract value as the value-level one whenever no allocation fails, and NoMemory exactly when the overflowed flag is set. The model agrees with deserializeMsgPack on values encoded by an independent encoder with arbitrary legal widths, on all their proper prefixes and on corruptions; the "
   "implementation's document is checked against the encoded value.",
   level_note="the value denoted by a non-minimal encoding (as opposed to its acceptance and prefix behaviour) is tied by the correspondence and the independent codec; USE_DOUBLE=0 is modelled as rounding every stored double to binary32",
   suites=lambda tier: [S.MpDeSuite(cfg=DEF), S.MpDeSuite(cfg={"USE_DOUBLE": 0}, n=1200 if tier == "quick" else 60000),
@@ -208,12 +209,12 @@ P("C13", module="AJ.Props.C13All", extra=[("AJ.Props.C13", ["C13"]), ("AJ.Props.
   level_note="writes outside the destination on the binary are observed by ASan and the guard pattern; the model has destinations of fixed length by construction",
   suites=lambda tier: [S.ConvSuite(cfg=DEF), S.CopyArrSuite(cfg=DEF)])
 
-P("C15", module="AJ.Props.C15All", extra=[("AJ.Props.C15", ["C15"]), ("AJ.Props.C01Doc", ["C15"])], level_text="Theorems for JSON (filtered and unfiltered) and MessagePack, any bytes, any limit: Ok implies nesting <= L; L+1 opening brackets/headers give TooDeep after exactly "
+P("C15", module="AJ.Props.C15All", extra=[("AJ.Props.C15", ["C15"]), ("AJ.Props.C01Doc", ["C15"]), ("AJ.Props.C09Doc", ["C15"])], level_text="Theorems for JSON (filtered and unfiltered) and MessagePack, any bytes, any limit: Ok implies nesting <= L; L+1 opening brackets/headers give TooDeep after exactly "
   "L+1 bytes, also inside discarded parts; raising the limit changes nothing unless the result was TooDeep (never otherwise). Stack use is compared between inputs of depth L+1 and 2000.",
   level_note="stack bytes are observed on the binary; 'as soon as' for nested objects is covered by the correspondence",
   suites=lambda tier: [S.DepthSuite(cfg=DEF), S.DepthSuite(cfg=CFG_ALL)])
 
-P("C16", module="AJ.Props.C16All", extra=[("AJ.Props.C01", ["C16"]), ("AJ.Props.C16", ["C16"]), ("AJ.Props.C16Seq", ["C16"])],
+P("C16", module="AJ.Props.C16All", extra=[("AJ.Props.C01", ["C16"]), ("AJ.Props.C16", ["C16"]), ("AJ.Props.C16Seq", ["C16"]), ("AJ.Props.C09Doc", ["C16"])],
   level_text="Theorems: deserializeJson consumes the leading white space and exactly the bytes of the top-level value, plus one byte when it is a number and something follows "
   "(number_consumes_at_most_one_more, run_doc, exact_consumption); deserializeMsgPack consumes exactly the bytes of one object; C16.json_sequence / json_sequence_gen: for any list of documents "
   "of the dialect (any configuration and limit) written back to back, where only a number must be followed by a white-space byte, k successive calls return exactly the documents one after "
@@ -240,7 +241,7 @@ P("C18", level_text="Theorems for all values: != is the negation of ==, <= is < 
   level_note="known finding: == is asymmetric for objects with repeated keys (reachable through MessagePack)",
   suites=lambda tier: [S.CmpSuite(cfg=DEF), S.CmpSuite(cfg={"USE_DOUBLE": 0})])
 
-P("C04", module="AJ.Props.C04All", extra=[("AJ.Props.C04", ["C04"]), ("AJ.Props.C04Hist", ["C04"]), ("AJ.Props.C04Rem", ["C04"]), ("AJ.Props.C04Copy", ["C04"]), ("AJ.Props.C14Hist", ["C04"])],
+P("C04", module="AJ.Props.C04All", extra=[("AJ.Props.C04", ["C04"]), ("AJ.Props.C04Hist", ["C04"]), ("AJ.Props.C04Rem", ["C04"]), ("AJ.Props.C04Copy", ["C04"]), ("AJ.Props.C14Hist", ["C04"]), ("AJ.Props.C04Deser", ["C04"])],
   level_text="Theorems about the slot-level document model (total definitions over pools, free list, next-linked chains with head/tail, extension slots, "
   "reference-counted strings) under the invariant WF = ghost layout WFG (chains acyclic, tail = last slot, slots used once, live in the pool) + string table StrOK (reference counts = number of "
   "referring slots): the abstraction to an ordered tree never runs out of fuel; array append refines list append and keeps WF; set of every scalar/string kind (incl. 64-bit extension slots, "
@@ -264,7 +265,7 @@ P("C04", module="AJ.Props.C04All", extra=[("AJ.Props.C04", ["C04"]), ("AJ.Props.
   ([S.HistSuite(cfg=G[g], nh=1500) for g in ("tiny2", "id1c10", "id1i3", "len1", "len4")] if tier == "thorough" else []),
   partial=["document-level copy/swap/move as theorems"])
 
-P("C05", module="AJ.Props.C05All", extra=[("AJ.Props.C05", ["C05"]), ("AJ.Props.C05Doc", ["C05"]), ("AJ.Props.C05Copy", ["C05"]), ("AJ.Props.C05Deser", ["C05"])],
+P("C05", module="AJ.Props.C05All", extra=[("AJ.Props.C05", ["C05"]), ("AJ.Props.C05Doc", ["C05"]), ("AJ.Props.C05Copy", ["C05"]), ("AJ.Props.C05Deser", ["C05"]), ("AJ.Props.C05MpDeser", ["C05"])],
   level_text="Theorems at the slot-pool level for every state reachable under every failure oracle (one-shot positions and fail-from-k): a failed allocation changes no "
   "live slot and keeps the pool invariant, clear() returns every block, and the allocator works again afterwards. At document level (C05.add_element_fail_clean, set_fail_clean, "
   "add_member_fail_clean): when adding an element, storing a value or adding a member fails for lack of memory, the document is flagged overflowed, stays well-formed (WF), denotes exactly "
@@ -277,15 +278,16 @@ P("C05", module="AJ.Props.C05All", extra=[("AJ.Props.C05", ["C05"]), ("AJ.Props.
   "every observation and allocator log is compared with the slot-level model, and the implementation is checked for crashes (ASan/UBSan), leaks at clear(), misuse of the allocator, "
   "unreported failures and collateral changes; deserialization is run under every single-failure position.",
   level_note="C05.deser_failure_reported / deser_failure_leaves_wf_and_clear_returns_all: for deserializeJson (slot-level model) under ANY failure schedule: Ok implies not overflowed, NoMemory implies overflowed, "
-  "overflowed implies not Ok; the document stays well formed and clear() returns every block. deserializeMsgPack has the slot-level model and the allocator-log correspondence (mpdoc), its theorems are in progress; "
+  "overflowed implies not Ok; the document stays well formed and clear() returns every block; the same for deserializeMsgPack (mp_deser_*), where moreover NoMemory <-> overflowed; deserialization into a value inside a "
+  "document (C04.deser_into_value) keeps the rest of the document intact under any failure; "
   "documents keep their own allocator in the fault histories (no copy-assignment/swap)",
   suites=lambda tier: [S.FaultSuite(cfg=G["default"]), S.FaultSuite(cfg=G["tiny1"], nh=120 if tier == "quick" else 3000), S.FaultSuite(cfg=G["tiny2"], nh=80 if tier == "quick" else 3000),
                        S.DeserFaultSuite(cfg=G["default"]), S.DeserFaultSuite(cfg=G["tiny2"], n=300 if tier == "quick" else 20000),
                        S.JsonDocSuite(cfg=DEF, n=1500 if tier == "quick" else 150000), S.MpDocSuite(cfg=DEF, n=1500 if tier == "quick" else 150000), S.DeserShareSuite(cfg=G["tiny2"])] +
   ([S.FaultSuite(cfg=G[g], nh=2000) for g in ("id1", "tiny2", "id1c10")] if tier == "thorough" else []),
-  partial=["failure inside deserializeMsgPack as a theorem"])
+  partial=["filtered deserialization at slot level (the filtered runs are related to the unfiltered one at value level, C11)"])
 
-P("C06", module="AJ.Props.C06All", extra=[("AJ.Props.C19", ["C06"]), ("AJ.Props.C06Doc", ["C06"]), ("AJ.Props.C05Deser", ["C06"])],
+P("C06", module="AJ.Props.C06All", extra=[("AJ.Props.C19", ["C06"]), ("AJ.Props.C06Doc", ["C06"]), ("AJ.Props.C05Deser", ["C06"]), ("AJ.Props.C05MpDeser", ["C06"]), ("AJ.Props.C06Mem", ["C06"])],
   level_text="Theorems at the slot-pool level: a released slot is reused before any allocator call, the allocator is called only "
   "when the free list is empty and the last pool is full or absent, clear() releases exactly one block per pool plus the heap table and nothing else. At document level (C06Doc): "
   "free_after_clear / clear_then_add(s)_no_allocator_call - the slots released by clearing a subtree are exactly those handed out by the next insertions, with no allocator call; "
@@ -294,12 +296,13 @@ P("C06", module="AJ.Props.C06All", extra=[("AJ.Props.C19", ["C06"]), ("AJ.Props.
   "blocks outstanding in the allocator log equal pools + string nodes, and clearAll returns all of them (history_good keeps the exact-count invariant). On the instrumented allocator "
   "(ledger of live blocks, call log per document) histories and deserializations are compared call by call with the model; read-only operations must not call the allocator; "
   "the ledger must be empty after clear(); double release or release through another allocator aborts the harness; the deserialization memory bound is checked on both deserializers.",
-  level_note="the deserialization memory bound (one maximum-size string + pool granularity + a linear function of the bytes consumed, total requested and peak held) is checked on the instrumented allocator "
-  "for sampled and hostile inputs (huge announced lengths/counts, long strings, many tiny elements), not proved; moved-from/swapped documents are covered by the correspondence",
+  level_note="C06Mem: deser_memory_linear / mp_deser_memory_linear - for EVERY input, code and failure schedule the memory held by the slot-level deserializers is at most A + B*n (n = bytes consumed; A = one pool + "
+  "one maximum-size string while parsing, B = slotSize + 2*poolSize + 1 + string overhead): slots handed out <= n, string bytes <= n, builder/buffer capacity <= maxStrLen, counts announced by MessagePack headers "
+  "allocate nothing in advance; the same bound is checked on the instrumented allocator (total requested and peak) for sampled and hostile inputs; moved-from/swapped documents are covered by the correspondence",
   suites=lambda tier: [S.HistSuite(cfg=G["default"]), S.HistSuite(cfg=G["tiny1"], nh=40 if tier == "quick" else 2000), S.FaultSuite(cfg=G["default"], nh=60 if tier == "quick" else 2000),
                        S.MpDeSuite(cfg=DEF, n=600 if tier == "quick" else 50000), S.DeserMemSuite(cfg=DEF), S.JsonDocSuite(cfg=DEF, n=800 if tier == "quick" else 60000), S.MpDocSuite(cfg=DEF, n=800 if tier == "quick" else 60000), S.LimitSuite(cfg=G["len1"]), S.LimitSuite(cfg=G["id1"]),
                        S.HistSuite(cfg=G["nolonglong"], nh=40 if tier == "quick" else 2000)],
-  partial=["deserialization memory bound as a theorem"])
+  partial=["the bound is on the memory HELD (pool blocks, pool table, string nodes, transient buffer), related to the textual allocator log by the ledger theorems; move/swap by correspondence"])
 
 P("C19", module="AJ.Props.C19All", extra=[("AJ.Props.C19", ["C19"]), ("AJ.Props.C19Str", ["C19"]), ("AJ.Props.C19Geo", ["C19"])], level_text="Theorems for every geometry with poolCap >= 1 and initPools >= 1, every operation sequence and failure oracle: slot identifiers never wrap, "
   "never equal NULL_SLOT, never collide with a live slot; at most 2^(8*idBytes)-1 slots; at the limit allocation fails without touching the state; after a release or clear() allocation "
